@@ -35,7 +35,7 @@ CHECKS = {
         "engine": "enumeration+hypothesis",
     },
     "C12": {
-        "technique": "schedule enumeration and PCT-style random schedule generation with a harness-owned deterministic thread scheduler (sys.monitoring / sys.settrace line events in the retort files as yield points; one thread released at a time); oracle = single-threaded reference outcomes during and after the race; hangs need confirmation in a fresh interpreter Plus a cold-process part: every schedule in a fresh interpreter with line events on every file of the adaptix package, preemption at the lines that only the first (cold) creation of a process executes (found by diffing a cold and a warm line profile).",
+        "technique": "schedule enumeration and PCT-style random schedule generation with a harness-owned deterministic thread scheduler (sys.monitoring / sys.settrace line events in the retort files as yield points; one thread released at a time); oracle = single-threaded reference outcomes during and after the race; hangs need confirmation in a fresh interpreter Plus a cold-process part: every schedule in a fresh interpreter with line events on every file of the adaptix package, preemption at the lines that only the first (cold) creation of a process executes (found by diffing a cold and a warm line profile). The same fresh-interpreter harness also races two DIFFERENT models (an empty-layout one and a list-layout one) on one retort, preempting at a seed-dependent sample (thorough: all) of every distinct line the first thread executes anywhere in the package.",
         "text": "Exploration of interleavings: exhaustive single-preemption sweeps (all yield points / conflict lines), two-preemption products over conflict lines, Hypothesis-generated programs with PCT schedules; 7 model families incl. recursive and mutually recursive ones, 2-3 threads.",
         "note": "Limits: Python statement granularity, GIL build, <= 3 threads, <= 2 systematic preemptions; wall clock is used only as a liveness fallback, never as a verdict (budget overruns and unconfirmed hangs are inconclusive counters).",
         "engine": "vkit/sched.py + hypothesis",
